@@ -2,6 +2,7 @@
 From Coq Require Import ZArith List Bool.
 From HV Require Import Prelude.Py Prelude.State Spec.DynTable Spec.SDecoder.
 From HV Require Import Model.Data Model.Table Model.Decoder Model.Encoder Model.Rel Model.RelEnc.
+From HV Require Import Model.Histories.
 From HV Require Import Proofs.Table Proofs.EncoderMeaning Proofs.Lockstep Proofs.SizeSignal.
 Import ListNotations.
 Open Scope Z_scope.
@@ -11,13 +12,7 @@ Open Scope Z_scope.
     limit), then encode a block.  [recorded old vs] is what the encoder records: the settings
     from the first one that differs from the size then in force (a setting equal to the size
     in force while nothing is pending changes nothing and needs no signal). *)
-Fixpoint recorded (old : Z) (vs : list Z) : list Z :=
-  match vs with
-  | [] => []
-  | v :: r => if v =? old then recorded old r else v :: r
-  end.
-Definition set_all (e : encoder) (vs : list Z) : encoder :=
-  fold_left (fun e v => snd (estep e (ESetSize v))) vs e.
+(** [recorded], [set_all]: Model/Histories.v *)
 
 Theorem C09_settings_recorded : forall e c vs, TInv e.(e_tab) -> Sync e c -> e.(e_changes) = [] ->
   Forall (fun v => 0 <= v <= limit c) vs ->
@@ -68,7 +63,7 @@ Theorem C09_no_update_exceeds_final_refuted :
     In 100 (recorded 4096 vs) /\ 100 > e1.(e_tab).(maxsize).
 Proof.
   exists [40; 100; 40], [([Byte.x3a;Byte.x6d;Byte.x65;Byte.x74;Byte.x68;Byte.x6f;Byte.x64], [Byte.x47;Byte.x45;Byte.x54], false)].
-  vm_compute. repeat split; try reflexivity. left; reflexivity.
+  vm_compute. repeat split; try reflexivity. right; left; reflexivity.
 Qed.
 
 Print Assumptions C09_settings_recorded.
